@@ -38,6 +38,8 @@ type req struct {
 	replies    int
 	replyAfterAck bool
 	inFlightAtFault bool
+	filler          bool // request of a (bulk ...) step, answered at once by the auto-completing handler
+	dispCount       int
 	maybeFlushed    bool // a flush naming its tag was sent at a moment when the server's view was not known exactly
 }
 
@@ -62,6 +64,8 @@ type runner struct {
 	cursor    int // items consumed
 	maxDepth  int
 	nFlushRunning, nReuse, nDup, nLateFin int
+	nFillers     int
+	shutdownEOF  bool // end the schedule by a peer close (long schedules: a context cancel would cancel 65536 contexts)
 }
 
 func (r *runner) fail(key, what string) {
@@ -88,7 +92,7 @@ func start(rng *prng.R, gated bool, inner func(w *world) p9p.Handler) *runner {
 	// the Rversion is written.  That is not what is checked here: start again (never an alarm).
 	var r *runner
 	for attempt := 0; attempt < 50; attempt++ {
-		w := &world{byRid: map[int]*inv{}, sent: map[string]int{}}
+		w := &world{byRid: map[int]*inv{}, sent: map[string]int{}, filler: map[string]p9p.Message{}}
 		w.cn = newConn(w)
 		w.ctx, w.cancel = context.WithCancel(context.Background())
 		if inner != nil {
@@ -205,6 +209,25 @@ func (r *runner) newResult(honourCancel bool) (hresult, sx.S, []byte) {
 			return hresult{err: p9p.MessageRerror{Ename: text}}, sx.L(sx.Sym("emsg"), sx.Str(text)), rerr(text)
 		}
 		return hresult{err: &p9p.MessageRerror{Ename: text}}, sx.L(sx.Sym("emsg"), sx.Str(text)), rerr(text)
+	case k == 7 && !honourCancel:
+		// an ordinary error that WRAPS a 9p error: the handler returned the outer error, so the reply
+		// must carry the outer error's Error() text, not the wrapped MessageRerror
+		inner := []p9p.MessageRerror{{Ename: "file not found"}, {Ename: "permission denied"}, {Ename: fmt.Sprintf("inner %d", n)}}[g.Intn(3)]
+		var e error
+		switch g.Intn(5) {
+		case 0:
+			e = fmt.Errorf("open %q #%d: %w", "notes.txt", n, inner)
+		case 1:
+			e = fmt.Errorf("walk #%d: %w", n, &inner)
+		case 2:
+			e = errors.Join(fmt.Errorf("first #%d", n), inner)
+		case 3:
+			e = wrapErr{fmt.Sprintf("custom #%d", n), inner}
+		default:
+			e = fmt.Errorf("outer #%d: %w", n, fmt.Errorf("middle: %w", &inner))
+		}
+		text := e.Error()
+		return hresult{err: e}, sx.L(sx.Sym("err"), sx.Str(text)), rerr(text)
 	default:
 		text := fmt.Sprintf("%s #%d", errTexts[g.Intn(len(errTexts))], n)
 		if honourCancel {
@@ -216,6 +239,15 @@ func (r *runner) newResult(honourCancel bool) (hresult, sx.S, []byte) {
 		return hresult{err: errors.New(text)}, sx.L(sx.Sym("err"), sx.Str(text)), rerr(text)
 	}
 }
+
+// wrapErr is an error type of the handler's own that wraps another error
+type wrapErr struct {
+	msg   string
+	inner error
+}
+
+func (w wrapErr) Error() string { return w.msg + " (" + w.inner.Error() + ")" }
+func (w wrapErr) Unwrap() error { return w.inner }
 
 // ---- client-view bookkeeping
 
@@ -671,4 +703,111 @@ func descr(qs []*req) string {
 		s += fmt.Sprintf("[rid=%d class=%s disp=%v rel=%v replies=%d flush=%v]", q.rid, q.class, q.dispatched, q.released, q.replies, q.flush)
 	}
 	return s
+}
+
+// ---- long histories on one connection
+
+// bulk sends n filler requests in ONE batch (no quiescence wait in between) on tags tag0 + (i mod ntags);
+// the handler answers each at once.  The harness itself checks that every filler was dispatched exactly
+// once with its message and answered exactly once with its own tag and result; the step's observation
+// for the model is empty (see Run/RunC06.v, (bulk ...)).
+func (r *runner) bulk(n int, tag0 uint16, ntags int) {
+	w := r.w
+	rid0 := len(r.reqs)
+	replyOf := make(map[string]*req, n)
+	buf := make([]byte, 0, n*16)
+	w.mu.Lock()
+	for i := 0; i < n; i++ {
+		rid := rid0 + i
+		msg := p9p.MessageTclunk{Fid: p9p.Fid(rid)}
+		res := p9p.MessageRwrite{Count: uint32(rid)}
+		q := &req{rid: rid, tag: tag0 + uint16(i%ntags), class: "normal", payload: payloadOf(msg), filler: true,
+			released: true, resBytes: payloadOf(res)}
+		r.reqs = append(r.reqs, q)
+		w.sent[string(q.payload)] = rid
+		w.filler[string(q.payload)] = res
+		replyOf[string(q.resBytes)] = q
+		buf = append(buf, frameBytes(q.tag, msg)...)
+	}
+	w.mu.Unlock()
+	r.nFillers += n
+	w.cn.feed(buf)
+	action := sx.L(sx.Sym("bulk"), sx.I(int64(n)), sx.I(int64(rid0)), sx.U(uint64(tag0)), sx.I(int64(ntags)))
+	if !waitQuiet(10 * time.Minute) {
+		r.hang = true
+		r.fail("serve.no-quiescence:bulk", "the process did not become quiescent within 10 min after a batch of requests")
+	}
+	w.mu.Lock()
+	items := append([]item{}, w.items[r.cursor:]...)
+	r.cursor = len(w.items)
+	w.mu.Unlock()
+	for _, it := range items {
+		switch it.kind {
+		case itDisp:
+			if it.rid >= rid0 && it.rid < rid0+n {
+				r.reqs[it.rid].dispCount++
+				r.reqs[it.rid].dispatched = true
+			} else {
+				r.fail("c06.bulk-foreign-dispatch", fmt.Sprintf("request %d was dispatched during a batch it does not belong to", it.rid))
+			}
+		case itTake:
+			q := replyOf[string(it.payload)]
+			if q == nil || q.tag != it.tag {
+				r.fail("c06.reply-unattributable", fmt.Sprintf("batch: frame tag=%d payload=%x is not the result of a request with that tag", it.tag, it.payload))
+				continue
+			}
+			q.replies++
+		case itStop, itRet:
+			r.fail("c11.return-without-fault", "ServeConn returned during a fault-free batch")
+		}
+	}
+	for i := 0; i < n; i++ {
+		q := r.reqs[rid0+i]
+		switch {
+		case q.dispCount == 0:
+			r.fail("c06.not-dispatched", fmt.Sprintf("batch request %d (tag %d) was not handed to the handler", q.rid, q.tag))
+		case q.dispCount > 1:
+			r.fail("c06.dispatched-twice", fmt.Sprintf("batch request %d was handed to the handler %d times", q.rid, q.dispCount))
+		}
+		switch {
+		case q.replies == 0:
+			r.fail("c06.no-reply:filler", fmt.Sprintf("batch request %d (tag %d) never received its reply", q.rid, q.tag))
+		case q.replies > 1:
+			r.fail("c06.second-reply", fmt.Sprintf("batch request %d (tag %d) was answered %d times", q.rid, q.tag, q.replies))
+		}
+	}
+	obs := sx.L(sx.Sym("obs"), sx.List(nil), sx.List(nil), sx.List(nil), sx.I(0))
+	r.steps = append(r.steps, sx.L(action, obs))
+	r.label = append(r.label, "bulk")
+}
+
+// finishMany releases several held handlers at once (one (multi (fin ...) ...) step)
+func (r *runner) finishMany(qs []*req) {
+	var fins []sx.S
+	type rel struct {
+		iv  *inv
+		res hresult
+	}
+	var rels []rel
+	for _, q := range qs {
+		iv := r.w.byRid[q.rid]
+		if iv == nil || q.released {
+			continue
+		}
+		res, s, pb := r.newResult(false)
+		q.released = true
+		q.resBytes = pb
+		if iv.ctx.Err() != nil {
+			r.nLateFin++
+		}
+		fins = append(fins, sx.L(sx.Sym("fin"), sx.I(int64(q.rid)), s))
+		rels = append(rels, rel{iv, res})
+	}
+	if len(fins) == 0 {
+		return
+	}
+	for _, x := range rels {
+		x.iv.gate <- x.res
+	}
+	r.observe(sx.List(append([]sx.S{sx.Sym("multi")}, fins...)), "fin-many", nil)
 }
